@@ -96,6 +96,13 @@ def shiftHeights (D : List (Row Int)) : Except PyErr (List (Row Int)) :=
     let m := rs.foldl (fun m x => if x.h < m then x.h else m) r.h
     .ok (D.map fun x => { x with h := x.h + (1 - m) })
 
+/-- what `LouvainIteration.fit` / `LouvainHierarchy.fit` do with their tree: `get_dendrogram`, the height shift,
+    `reorder_dendrogram` -/
+def treePipeline (t : Tree) : Except PyErr (Dendro Int) := do
+  let d ← getDendrogram t
+  let d ← shiftHeights d
+  reorderDendrogram d
+
 /-! ### LouvainIteration -/
 
 /-- `np.unique(labels)` -/
